@@ -12,7 +12,7 @@ For every property:
 import re
 
 from . import v2gen, buildgen, v1gen
-from .lib import Rng, expr, expr_bytes, expr_len, hx, SIG
+from .lib import Rng, expr, expr_bytes, expr_len, hx, SIG, special_ip6, special_ip4
 
 FLAGS = re.compile(r" i([01])c([01])$")
 
@@ -228,6 +228,7 @@ class C14(Prop):
 
 class C17(Prop):
     id = "C17"
+    oracle_uses_meta = True
     projection_name = "full (error variant and its counts)"
     streams = (v2gen.truncations, v2gen.control_v2, v2gen.control_space, v2gen.signature, v2gen.valid_headers)
 
@@ -539,7 +540,8 @@ class C13(Prop):
 # v1 / auto properties
 # ------------------------------------------------------------------------------------------------
 
-V1_TRAILERS = [b"x", b"5", b" ", b"\r", b"\n", b"\r\n", b"\x00", b"PROXY UNKNOWN\r\n", b"PROXY", "é".encode(), SIG]
+V1_TRAILERS = [b"x", b"5", b" ", b"\r", b"\n", b"\r\n", b"\x00", b"PROXY UNKNOWN\r\n", b"PROXY", "é".encode(), SIG,
+               b"\xff", b"\xc3", b"\x16\x03\x01\x02\x00\x01\x00\x01\xfc\x03\x03\x9b"]
 
 
 def v1_header_candidate(b):
@@ -772,6 +774,7 @@ class C06(Prop):
 
 class C12(Prop):
     id = "C12"
+    oracle_uses_meta = True
     projection_name = "full (error variant with its crate-decided payload, and the completeness flag)"
     streams = (v1gen.mutations, v2gen.control_v2, v2gen.control_space, v2gen.signature)
 
@@ -1049,9 +1052,10 @@ def ctor_cases(tier, rng, k, n):
             parts = []
             for f, port in zip(fam, (sp, dp)):
                 if f == 4:
-                    parts.append("4,%s,%d" % (hx(rng.bytes(4)), port))
+                    parts.append("4,%s,%d" % (hx(rng.bytes(4) if rng.chance(2, 3) else special_ip4(rng)), port))
                 else:
-                    parts.append("6,%s,%d,%d,%d" % (hx(rng.bytes(16)), port, rng.below(1 << 32), rng.below(1 << 32)))
+                    ip6 = rng.bytes(16) if rng.chance(1, 2) else special_ip6(rng)      # incl. IPv4-mapped V6 socket addresses
+                    parts.append("6,%s,%d,%d,%d" % (hx(ip6), port, rng.below(1 << 32), rng.below(1 << 32)))
             yield ("ctor-pair", ("pair", ",".join(parts)), {"fam": fam})
         else:
             v = rng.bytes(rng.below(20))
